@@ -326,6 +326,9 @@ class StmtMixin:
         _, c, ty = f
         self.check_write(st, o.z, node, 'setattr')
         st.fset(o.z, c, attr, sort_of(ty), self.coerce(v, ty, st).z)
+        if attr in self.c.ghost.get('publish', []):
+            # publication point of a lazily built shared value: from here on other threads may see it, so it must be complete
+            st.tags['published'] = (attr, getattr(node, 'lineno', 0))
 
     def setitem(self, c, i, v, st, node):
         if c.ty.kind == 'list':
